@@ -401,6 +401,16 @@ def orderedMapValidIndexedStream {β} (indices : List Int) (values : List β) (m
   | .ok s => .ok (s.io.outI, s.io.outV)
   | .error e => .error e
 
+/-- `max(indices[1:] - indices[:-1])` over the whole offsets array (0 for fewer than two offsets; the code finds it in one
+    chunked pass, which is the same maximum) -/
+def longestEntry (indices : List Int) : Nat :=
+  (List.zipWith (fun a b => (b - a).toNat) indices indices.tail).foldl max 0
+
+/-- the `value_factor=None` default of `ordered_map_valid_indexed_stream` (fix NC02c): at least `vf` (= 8 in the source) and
+    large enough for the longest entry of the source: `max(vf, ceil(longest / chunksize))` -/
+def autoValueFactor (vf : Nat) (indices : List Int) (cs : Nat) : Nat :=
+  max vf ((longestEntry indices + cs - 1) / cs)
+
 /-! ### the non-streaming helpers -/
 
 /-- one iteration of `safe_map_values` (NC04a fixed: the zero-initialised result is left alone when no
